@@ -363,7 +363,7 @@ class Interp:
         if init is not None:
             self.call_function(init, obj, args, kwargs, node)
             return obj
-        if cinfo.is_dataclass:
+        if cinfo.is_dataclass or any(isinstance(c, ClassInfo) and c.is_dataclass for c in cinfo.mro()):      # an undecorated subclass inherits the generated __init__
             flds = cinfo.dataclass_fields()
             args = list(args)
             kwargs = dict(kwargs)
